@@ -202,7 +202,8 @@ class OptimizerGeneric:
             x (array-like): The values of the variables.
         """
         for idvar, var in enumerate(self.problem.variables):
-            var.update(x[idvar])
+            if np.isfinite(x[idvar]):  # a NaN of scipy is not a lens state
+                var.update(x[idvar])
         self.problem.update_optics()
 
     def undo(self):
@@ -226,6 +227,11 @@ class OptimizerGeneric:
         Returns:
             rss (float): The residual sum of squares.
         """
+        if not np.all(np.isfinite(x)):
+            # a non-finite trial vector (scipy produces them after a step
+            # off the 1e10 penalty) is never written into the lens: a NaN
+            # thickness would leave every later vertex position NaN for good
+            return 1e10
         for idvar, var in enumerate(self.problem.variables):
             var.update(x[idvar])
         self.problem.update_optics()  # update all optics (e.g., pickups)
